@@ -68,6 +68,16 @@ Theorem C06_reset_keeps_only_cache : forall (e : @lfr_e N),
   l_conf (lfr_reset e) = conf0 /\ l_r (lfr_reset e) = rstats0 /\ l_cache (lfr_reset e) = l_cache e.
 Proof. intros e. repeat split. Qed.
 
+(** a key simulated once is reused: the first answer wins, within and across epochs (the equality
+    used for keys must respect itself - true of the reals and of IEEE ==, which never holds for NaN) *)
+Theorem C06_cache_first_answer_wins :
+  (forall a b : F N, feqb a b = true -> forall c, feqb a c = feqb b c) ->
+  forall (p : @lfr_params N) k d b e n x,
+  cache_find k d (l_cache e) = Some b ->
+  cache_find k d (l_cache (fst (lfr_step p e n x))) = Some b /\
+  cache_find k d (l_cache (lfr_reset e)) = Some b.
+Proof. intros H. exact (lfr_cache_first_answer_wins H). Qed.
+
 End C06.
 
 Print Assumptions C06_confusion_counts.
@@ -78,3 +88,4 @@ Print Assumptions C06_drift_needs_tracked_rate_outside_bounds.
 Print Assumptions C06_untracked_silent.
 Print Assumptions C06_recs.
 Print Assumptions C06_reset_keeps_only_cache.
+Print Assumptions C06_cache_first_answer_wins.
